@@ -29,6 +29,36 @@ add('C02',
     "emg3d.core), numpy/scipy; tolerance 1e4 eps relative to the sum of "
     "absolute terms.")
 
+add('C03',
+    "Hypothesis over grids x 8 line-relaxation codes x sweep counts; "
+    "oracles against the checker-assembled operator: fixed point of the "
+    "exact solution (residual form), exactly relaxed last block, affinity, "
+    "boundary never written; differential core.solve vs dense solve",
+    "Exploration: each smoothing variant (point-wise, line x/y/z and "
+    "combinations, forward/backward) is exercised through solver.smoothing "
+    "(and the kernels' Python source on a sub-sample) on generated small "
+    "grids/models in both induction-number regimes and must act as a "
+    "consistent relaxation of A_ref; the banded LDL^T solver is compared "
+    "with numpy.linalg.solve on generated complex-symmetric 11-diagonal "
+    "systems (n=1..80).",
+    "Trusted: vp/refop.py assembly; rounding floor 1e-10 (residual form) "
+    "relative to |A||e|+|s|. A sweep silently skipping interior nodes is "
+    "outside this property (seen by C06).")
+
+add('C04',
+    "Hypothesis over 7 coarsening patterns x grids; full fine and coarse "
+    "edge bases through solver.restriction / prolongation; oracles: R == "
+    "P^T on interior edges, P == reference interpolation, row sums, "
+    "additivity, children sums",
+    "Exploration: for every coarsening pattern and generated stretched "
+    "grids the complete linear maps R and P are extracted column by column "
+    "and compared with each other and with a Kronecker-product reference "
+    "built from node coordinates; coarse grid/model conservation checked "
+    "against the checker's own child sums.",
+    "Trusted: reference prolongation in vp/checks/c04_transfer.py; "
+    "tolerance 1e4 eps. Coarsened directions have even cell counts >= 4 "
+    "(what the multigrid recursion can coarsen).")
+
 NOT_BUILT = "check not built yet (see DESIGN.md section 3 for the plan)"
 
 
